@@ -98,7 +98,7 @@ Lemma find_sa_spec id l x : find_sa id l = Some x ->
 Proof.
   unfold find_sa. induction l as [|y l IH]; cbn [find]; [discriminate|].
   destruct (bytes_eqb (sa_id y) id) eqn:E.
-  - intro H. injection H as <-. exists [], l. apply bytes_eqb_eq in E. repeat split; auto. intros ? [].
+  - intro H. injection H as <-. exists [], l. apply bytes_eqb_eq in E. repeat split; auto; intros ? [].
   - intro H. destruct (IH H) as (pre & post & -> & I & N). exists (y :: pre), post. repeat split; auto.
     intros z [<-|Hz]; [|auto]. intro C. rewrite C in E.
     assert (bytes_eqb id id = true) as X by (apply bytes_eqb_eq; reflexivity). rewrite X in E. discriminate.
@@ -142,3 +142,1008 @@ Proof.
   apply (generic_valid_iff m (tx_st c) s Vc) in G.
   destruct G as (H1 & H2 & H3 & H4 & H5 & H6 & H7 & H8). constructor; assumption.
 Qed.
+
+(* walk down a chain of early returns *)
+Ltac chain H :=
+  repeat match type of H with
+         | (if ?b then _ else _) = _ => let E := fresh "E" in destruct b eqn:E; try discriminate H
+         | (match ?x with _ => _ end) = _ => let E := fresh "E" in destruct x eqn:E; try discriminate H
+         end.
+Ltac boolify :=
+  repeat match goal with
+         | H : negb _ = false |- _ => apply negb_false_iff in H
+         | H : negb _ = true |- _ => apply negb_true_iff in H
+         | H : _ && _ = true |- _ => apply andb_true_iff in H; destruct H
+         | H : true && _ = false |- _ => cbn [andb] in H
+         end.
+
+(* ---------- what the repaired filters and validators accept ---------- *)
+Lemma fund_filter_safe cur new ic : fund_filter repaired cur new ic = true ->
+  funded cur new (ic_id ic) (bals_sum (ic_bals ic)) [] (ic_bals ic)
+  /\ find_sa (ic_id ic) (locked_of cur) = None.
+Proof.
+  unfold fund_filter, funded, locked_of, bals_of. cbn [repaired fix_fund_exact fix_locked_rest].
+  destruct (find_sa (ic_id ic) (al_locked (st_alloc cur))); [discriminate|].
+  destruct (find_sa (ic_id ic) (al_locked (st_alloc new))); [|discriminate].
+  intro H. boolify.
+  destruct (bals_sub (al_bals (st_alloc cur)) (ic_bals ic)) as [d|] eqn:S; [|discriminate].
+  split; [|reflexivity]. split.
+  - symmetry. apply suballocs_equal_eq. assumption.
+  - eapply sub_debited; eassumption.
+Qed.
+
+Lemma settle_filter_safe cur new ic : settle_filter repaired cur new ic = Some true ->
+  settled cur new (ic_id ic) (ic_bals ic).
+Proof.
+  unfold settle_filter, settled, locked_of, bals_of. cbn [repaired fix_locked_rest].
+  destruct (bals_add (al_bals (st_alloc cur)) (ic_bals ic)) as [s|] eqn:A; [|discriminate].
+  destruct (find_sa (ic_id ic) (al_locked (st_alloc cur))) as [x|] eqn:F; [|discriminate].
+  destruct (find_sa (ic_id ic) (al_locked (st_alloc new))); [discriminate|].
+  intro H. injection H as H. boolify.
+  destruct (remove_sa x (al_locked (st_alloc cur))) as [rest|] eqn:R; [|discriminate].
+  split.
+  - destruct (remove_found _ _ _ _ F R) as (pre & post & L & I & N & ->).
+    exists pre, x, post. repeat split; auto. symmetry. apply suballocs_equal_eq. assumption.
+  - eapply add_credited; eassumption.
+Qed.
+
+Lemma validate_vfund_safe cur u init imap : validate_vfund repaired cur u init imap = VOk ->
+  exists virt, transform_balances (bals_of (ss_state init)) (nat_np cur) imap = Some virt /\
+    funded cur (u_st u) (vp_id (ss_params init)) (alloc_sum (st_alloc (ss_state init))) imap virt
+    /\ find_sa (vp_id (ss_params init)) (locked_of cur) = None.
+Proof.
+  unfold validate_vfund, funded, locked_of, bals_of. cbn [repaired fix_vc_dims fix_fund_exact fix_locked_rest andb].
+  intro H. chain H. boolify.
+  match goal with H : suballoc_equal ?s _ = true |- _ => apply suballoc_equal_eq in H; subst s end.
+  cbn [sa_imap] in *.
+  eexists. split; [eassumption|]. split; [|reflexivity]. split.
+  - symmetry. apply suballocs_equal_eq. assumption.
+  - match goal with H : match bals_sub ?a ?b with _ => _ end = true |- _ =>
+      destruct (bals_sub a b) eqn:S; [|discriminate H]; eapply sub_debited; eassumption end.
+Qed.
+
+Lemma validate_vsettle_safe cur u fin : validate_vsettle repaired cur u fin = VOk ->
+  exists sa virt, find_sa (vp_id (ss_params fin)) (locked_of cur) = Some sa
+    /\ sa_bals sa = alloc_sum (st_alloc (ss_state fin))
+    /\ transform_balances (bals_of (ss_state fin)) (nat_np cur) (sa_imap sa) = Some virt
+    /\ settled cur (u_st u) (vp_id (ss_params fin)) virt.
+Proof.
+  unfold validate_vsettle, settled, locked_of, bals_of. cbn [repaired fix_vc_dims fix_locked_rest andb].
+  intro H. chain H. boolify.
+  match goal with H : find_sa _ (al_locked (st_alloc cur)) = Some ?s |- _ => exists s; rename H into F end.
+  eexists. split; [reflexivity|]. split; [apply zlist_eqb_eq; assumption|]. split; [eassumption|].
+  split.
+  - match goal with H : match remove_sa ?a ?b with _ => _ end = true |- _ =>
+      destruct (remove_sa a b) as [rest|] eqn:R; [|discriminate H];
+      destruct (remove_found _ _ _ _ F R) as (pre & post & L & I & N & ->);
+      exists pre, a, post; repeat split; auto; symmetry; apply suballocs_equal_eq; assumption end.
+  - eapply add_credited; eassumption.
+Qed.
+
+(* ---------- acceptUpdate ---------- *)
+Lemma peer_idx_neq m : peer_idx m <> me m.
+Proof.
+  unfold peer_idx. intro H.
+  assert (X : N.lxor (me m) (N.lxor (me m) 1) = N.lxor (me m) (me m)) by (f_equal; exact H).
+  rewrite <- N.lxor_assoc, N.lxor_nilpotent, N.lxor_0_l in X. discriminate X.
+Qed.
+
+Lemma update_ok_shape m s a m1 : step m (OUpdate s a) = (m1, OK) ->
+  m1 = set_staging m Signing s /\ ph m = Acting /\ valid_transition m s a = OK.
+Proof.
+  cbn [step]. destruct (expect m Acting Signing) eqn:E; cbn [negb]; [|intro H; discriminate H].
+  destruct (valid_transition m s a) eqn:VT; intro H; inversion H. subst.
+  repeat split. eapply expect_phase; exact E.
+Qed.
+
+Lemma nth_error_set_nth_other {A} i j (x : A) l : i <> j -> nth_error (set_nth i x l) j = nth_error l j.
+Proof. revert i j; induction l as [|y l IH]; intros [|i] [|j] H; cbn; try reflexivity; try congruence.
+  apply IH. congruence. Qed.
+Lemma nth_error_repeat_some {A} (x : A) n i y : nth_error (repeat x n) i = Some y -> y = x.
+Proof. apply nth_error_repeat. Qed.
+
+(* when acceptUpdate signs, it signs exactly the proposed state with the client's own key, the
+   machine was in phase Acting and the update passed machine.Update *)
+Lemma accept_signed_inv m u p m' sg : accept_update m u p = (m', AccSigned sg) -> p <> me m ->
+  ph m = Acting /\ valid_transition m (u_st u) (u_actor u) = OK /\
+  exists k, nth_error (mp_parts (ps m)) (N.to_nat (me m)) = Some k /\ sign_state k (u_st u) = Some sg.
+Proof.
+  intros H Hne. unfold accept_update in H.
+  destruct (step m (OUpdate (u_st u) (u_actor u))) as [m1 o1] eqn:S1.
+  destruct o1; try (inversion H; fail).
+  apply update_ok_shape in S1 as (-> & Hph & VT). split; [exact Hph|]. split; [exact VT|].
+  destruct (step (set_staging m Signing (u_st u)) (OAddSig p (u_sig u))) as [m2 o2] eqn:S2.
+  destruct o2; try (inversion H; fail).
+  cbn [step set_staging ph staging ps me current new_tx tx_sigs tx_st] in S2.
+  destruct (signing_phase Signing); cbn [negb] in S2; [|inversion S2].
+  destruct (nth_error (repeat None (N.to_nat (nparts m))) (N.to_nat p)) as [[g|]|] eqn:Np; try (inversion S2; fail).
+  destruct (nth_error (mp_parts (ps m)) (N.to_nat p)) as [ad|]; [|inversion S2].
+  destruct (verify_state ad (u_st u) (u_sig u)) as [[|]|]; inversion S2. clear S2. subst.
+  match type of H with context [step ?mm OSig] => destruct (step mm OSig) as [m3 o3] eqn:S3 end.
+  destruct o3; try (inversion H; fail).
+  cbn [step ph staging me ps tx_sigs tx_st current] in S3.
+  destruct (signing_phase Signing); cbn [negb] in S3; [|inversion S3].
+  rewrite nth_error_set_nth_other in S3 by (intro C; apply Hne; lia).
+  destruct (nth_error (repeat None (N.to_nat (nparts m))) (N.to_nat (me m))) as [[g|]|] eqn:Nm; try (inversion S3; fail).
+  { apply nth_error_repeat_some in Nm. discriminate Nm. }
+  destruct (nth_error (mp_parts (ps m)) (N.to_nat (me m))) as [k|]; [|inversion S3].
+  destruct (sign_state k (u_st u)) as [g|] eqn:SS; inversion S3. subst. clear S3.
+  exists k. split; [reflexivity|].
+  cbn [staging] in H.
+  match type of H with context [step ?mm ?oo] => destruct (step mm oo) as [m4 o4] end.
+  destruct o4; inversion H; subst; exact SS.
+Qed.
+
+(* ---------- which requests can end in a countersignature ---------- *)
+Definition accepting (d : decision) : Prop := d = AskUser \/ d = AutoAccept.
+Definition never_accepts (k : mach -> rstate -> result) : Prop := forall m s, ~ accepting (r_dec (k m s)).
+
+Lemma err_logged_never : never_accepts err_logged.
+Proof. intros m s [H|H]; discriminate H. Qed.
+Lemma reject_last_never v : never_accepts (fun m s => reject_last v m s).
+Proof. intros m s. unfold reject_last. destruct (respond v SentRej true s); [destruct (rs_called s)|];
+  intros [H|H]; discriminate H. Qed.
+
+Lemma auto_accept_inv v m u p s pa k : never_accepts k ->
+  accepting (r_dec (auto_accept v m u p s pa k)) ->
+  r_dec (auto_accept v m u p s pa k) = AutoAccept /\ r_path (auto_accept v m u p s pa k) = Some pa
+  /\ exists m' sg, accept_update m u p = (m', AccSigned sg).
+Proof.
+  intros Hk. unfold auto_accept. destruct (rs_called s).
+  - destruct (respond v SentAcc false s); [intro A; elim (Hk _ _ A)|intros [A|A]; discriminate A].
+  - destruct (accept_update m u p) as [m' [sg| |]] eqn:AU.
+    + destruct (respond v SentAcc true s); [|intros [A|A]; discriminate A].
+      intros _. cbn [r_dec r_path]. repeat split; eauto.
+    + destruct (respond v SentAcc false s); [intro A; elim (Hk _ _ A)|intros [A|A]; discriminate A].
+    + intros [A|A]; discriminate A.
+Qed.
+
+Lemma reject_then_rep m s k : ~ accepting (r_dec (reject_then repaired m s k)).
+Proof. unfold reject_then. cbn [repaired fix_vc_return]. destruct (respond _ _ _ _); intros [H|H]; discriminate H. Qed.
+
+Lemma first_fund_hit v cur new l ic : first_fund v cur new l = FHit ic -> In ic l /\ fund_filter v cur new ic = true.
+Proof. induction l as [|x l IH]; cbn [first_fund]; [discriminate|].
+  destruct (fund_filter v cur new x) eqn:F.
+  - intro H. injection H as <-. split; [left; reflexivity|exact F].
+  - intro H. destruct (IH H). split; [right|]; assumption. Qed.
+Lemma first_settle_hit v cur new l ic : first_settle v cur new l = FHit ic -> In ic l /\ settle_filter v cur new ic = Some true.
+Proof. induction l as [|x l IH]; cbn [first_settle]; [discriminate|].
+  destruct (settle_filter v cur new x) as [[|]|] eqn:F; try discriminate.
+  - intro H. injection H as <-. split; [left; reflexivity|exact F].
+  - intro H. destruct (IH H). split; [right|]; assumption. Qed.
+
+Definition req_case (c : chanctx) (cur : state) (r : req) (res : result) : Prop :=
+  let pidx := peer_idx (cx_mach c) in
+  match r with
+  | RUpdate u =>
+      (r_dec res = AskUser /\ valid_two_party cur u pidx = true)
+      \/ (r_dec res = AutoAccept /\ exists ic, In ic (cx_fund c) /\ fund_filter repaired cur (u_st u) ic = true)
+      \/ (r_dec res = AutoAccept /\ exists ic, In ic (cx_settle c) /\ settle_filter repaired cur (u_st u) ic = Some true)
+  | RVFund u init imap => r_dec res = AutoAccept /\ validate_vfund repaired cur u init imap = VOk
+  | RVSettle u fin => r_dec res = AutoAccept /\ validate_vsettle repaired cur u fin = VOk
+  end.
+
+Lemma hur_accepting c r :
+  accepting (r_dec (handle_update_req repaired c r)) ->
+  let m := cx_mach c in let u := req_upd r in
+  snd (step m (OCheckUpdate (u_st u) (u_actor u) (u_sig u) (peer_idx m))) = OK /\
+  exists ct, current m = Some ct /\ req_case c (tx_st ct) r (handle_update_req repaired c r)
+  /\ (r_dec (handle_update_req repaired c r) = AutoAccept ->
+      exists m' sg, accept_update m u (peer_idx m) = (m', AccSigned sg)).
+Proof.
+  unfold handle_update_req. cbn zeta.
+  destruct (cx_stuck c); [intros [H|H]; discriminate H|].
+  destruct (snd (step (cx_mach c) (OCheckUpdate (u_st (req_upd r)) (u_actor (req_upd r)) (u_sig (req_upd r)) (peer_idx (cx_mach c))))) eqn:CU;
+    try (intros [H|H]; discriminate H).
+  destruct (current (cx_mach c)) as [ct|] eqn:Hc; [|intros [H|H]; discriminate H].
+  intro A. split; [reflexivity|]. exists ct. split; [reflexivity|].
+  destruct r as [u|u init imap|u fin]; cbn [req_upd req_case] in *.
+  - destruct (first_fund repaired (tx_st ct) (u_st u) (cx_fund c)) as [|ic|] eqn:FF.
+    + destruct (first_settle repaired (tx_st ct) (u_st u) (cx_settle c)) as [|ic|] eqn:FS.
+      * destruct (valid_two_party (tx_st ct) u (peer_idx (cx_mach c))) eqn:V2; [|destruct A as [A|A]; discriminate A].
+        split; [left; auto|]. intro C; discriminate C.
+      * unfold intercept in *. destruct (ic_awaited ic); [|destruct A as [A|A]; discriminate A].
+        destruct (auto_accept_inv _ _ _ _ _ _ _ err_logged_never A) as (D & _ & X).
+        apply first_settle_hit in FS. split; [right; right; split; [exact D|exists ic; exact FS]|intros _; exact X].
+      * destruct A as [A|A]; discriminate A.
+    + unfold intercept in *. destruct (ic_awaited ic); [|destruct A as [A|A]; discriminate A].
+      destruct (auto_accept_inv _ _ _ _ _ _ _ err_logged_never A) as (D & _ & X).
+      apply first_fund_hit in FF. split; [right; left; split; [exact D|exists ic; exact FF]|intros _; exact X].
+    + destruct A as [A|A]; discriminate A.
+  - unfold handle_vfund in *.
+    destruct (validate_vfund repaired (tx_st ct) u init imap) eqn:VV.
+    + destruct (cx_vmatch c).
+      * destruct (auto_accept_inv _ _ _ _ _ _ _ err_logged_never A) as (D & _ & X). auto.
+      * elim (reject_then_rep _ _ _ A).
+    + elim (reject_then_rep _ _ _ A).
+    + destruct A as [A|A]; discriminate A.
+  - unfold handle_vsettle in *.
+    destruct (validate_vsettle repaired (tx_st ct) u fin) eqn:VV.
+    + destruct (cx_vmatch c).
+      * destruct (auto_accept_inv _ _ _ _ _ _ _ (reject_last_never repaired) A) as (D & _ & X). auto.
+      * elim (reject_last_never repaired _ _ A).
+    + elim (reject_then_rep _ _ _ A).
+    + destruct A as [A|A]; discriminate A.
+Qed.
+
+(* ---------- C07 ---------- *)
+Definition cur_valid (c : chanctx) : Prop :=
+  forall ct, current (cx_mach c) = Some ct -> alloc_valid (st_alloc (tx_st ct)) = true.
+
+(* the change of locked funds and balances that the property allows for a request of each kind *)
+Definition safe_change (c : chanctx) (cur : state) (r : req) (d : decision) : Prop :=
+  let new := u_st (req_upd r) in
+  match r with
+  | RUpdate u =>
+      match d with
+      | AskUser => u_actor u = peer_idx (cx_mach c) /\ locked_of new = locked_of cur
+      | _ => (exists ic, In ic (cx_fund c) /\ find_sa (ic_id ic) (locked_of cur) = None
+                         /\ funded cur new (ic_id ic) (bals_sum (ic_bals ic)) [] (ic_bals ic))
+             \/ (exists ic, In ic (cx_settle c) /\ settled cur new (ic_id ic) (ic_bals ic))
+      end
+  | RVFund _ init imap =>
+      exists virt, transform_balances (bals_of (ss_state init)) (nat_np cur) imap = Some virt
+        /\ find_sa (vp_id (ss_params init)) (locked_of cur) = None
+        /\ funded cur new (vp_id (ss_params init)) (alloc_sum (st_alloc (ss_state init))) imap virt
+  | RVSettle _ fin =>
+      exists sa virt, find_sa (vp_id (ss_params fin)) (locked_of cur) = Some sa
+        /\ transform_balances (bals_of (ss_state fin)) (nat_np cur) (sa_imap sa) = Some virt
+        /\ settled cur new (vp_id (ss_params fin)) virt
+  end.
+
+Lemma C07_countersign_safe c r sg : cur_valid c -> countersigns repaired c r = Some sg ->
+  let m := cx_mach c in let u := req_upd r in
+  exists ct own, current m = Some ct
+    /\ sig_valid_for m (peer_idx m) (u_st u) (u_sig u) = true          (* the peer signed exactly this state *)
+    /\ GoodSuccessor m (tx_st ct) (u_st u) (u_actor u)                 (* valid successor of the current state *)
+    /\ nth_error (mp_parts (ps m)) (N.to_nat (me m)) = Some own
+    /\ sg = SigOf own (enc_state (u_st u))                             (* what is countersigned is that state *)
+    /\ safe_change c (tx_st ct) r (r_dec (handle_update_req repaired c r)).
+Proof.
+  intros CV H. cbn zeta. unfold countersigns in H.
+  assert (A : accepting (r_dec (handle_update_req repaired c r))).
+  { destruct (r_dec (handle_update_req repaired c r)); try discriminate H; [left|right]; reflexivity. }
+  destruct (hur_accepting c r A) as (CU & ct & Hc & RC & AA).
+  apply check_ok_inv in CU as [VT SV].
+  assert (S : exists m', accept_update (cx_mach c) (req_upd r) (peer_idx (cx_mach c)) = (m', AccSigned sg)).
+  { destruct (r_dec (handle_update_req repaired c r)); try discriminate H.
+    - unfold user_answer in H.
+      destruct (accept_update (cx_mach c) (req_upd r) (peer_idx (cx_mach c))) as [m' [g| |]]; cbn [snd] in H; try discriminate H.
+      injection H as ->. eauto.
+    - destruct (accept_update (cx_mach c) (req_upd r) (peer_idx (cx_mach c))) as [m' [g| |]]; try discriminate H.
+      injection H as ->. eauto. }
+  destruct S as [m' S].
+  destruct (accept_signed_inv _ _ _ _ _ S (peer_idx_neq _)) as (_ & _ & k & Hk & SS).
+  exists ct, k. split; [exact Hc|]. split; [exact SV|].
+  split; [apply vt_ok_good; [exact Hc|apply CV; exact Hc|exact VT]|].
+  split; [exact Hk|]. split.
+  { unfold sign_state in SS. destruct (state_encodable (u_st (req_upd r))); [|discriminate SS]. injection SS as <-. reflexivity. }
+  unfold safe_change. destruct r as [u|u init imap|u fin]; cbn [req_upd req_case] in *.
+  - destruct RC as [[D V2]|[[D (ic & I & F)]|[D (ic & I & F)]]]; rewrite D.
+    + unfold valid_two_party in V2. apply andb_true_iff in V2 as [V1 V2].
+      apply N.eqb_eq in V1. apply suballocs_equal_eq in V2. unfold locked_of. auto.
+    + left. exists ic. destruct (fund_filter_safe _ _ _ F). auto.
+    + right. exists ic. split; [exact I|]. apply settle_filter_safe. exact F.
+  - destruct RC as [_ V]. destruct (validate_vfund_safe _ _ _ _ V) as (virt & T & F & N). exists virt. auto.
+  - destruct RC as [_ V]. destruct (validate_vsettle_safe _ _ _ V) as (sa & virt & F & _ & T & S'). exists sa, virt. auto.
+Qed.
+
+(* ---------- C12: honest contexts, decodable requests ---------- *)
+(* what a channel registered with an honest client looks like while no handler is stuck *)
+Record honest_ctx (c : chanctx) : Prop := mkHonest {
+  h_two : length (mp_parts (ps (cx_mach c))) = 2%nat;        (* two-party channels only *)
+  h_me : me (cx_mach c) < 2;
+  h_app : mp_kind (ps (cx_mach c)) <> Some KMock;             (* NoApp or the payment app *)
+  h_cur : exists ct, current (cx_mach c) = Some ct            (* registered channels have a current state *)
+          /\ alloc_valid (st_alloc (tx_st ct)) = true
+          /\ num_parts (al_bals (st_alloc (tx_st ct))) = nparts (cx_mach c);
+  h_settle : forall ic ct, In ic (cx_settle c) -> current (cx_mach c) = Some ct ->
+             same_dims (al_bals (st_alloc (tx_st ct))) (ic_bals ic) = true;
+  h_await : forall ic, In ic (cx_fund c ++ cx_settle c) -> ic_awaited ic = true;
+  h_free : cx_stuck c = false }.
+
+(* what the decoders guarantee (Allocation.Decode validates; the data of a state of the payment app
+   is decoded as NoData) *)
+Definition upd_decodable (P : mparams) (u : upd) : Prop :=
+  alloc_valid (st_alloc (u_st u)) = true /\
+  (mp_kind P = Some KPay -> st_app (u_st u) = mp_app P -> st_data (u_st u) = []).
+Definition req_decodable (P : mparams) (r : req) : Prop :=
+  upd_decodable P (req_upd r) /\
+  match r with
+  | RUpdate _ => True
+  | RVFund _ s _ | RVSettle _ s => alloc_valid (st_alloc (ss_state s)) = true
+  end.
+
+Definition fine (d : decision) : Prop := d = Drop \/ d = AskUser \/ d = AutoAccept \/ d = Reject.
+Definition res_fine (r : result) : Prop := fine (r_dec r) /\ r_unlocked r = true /\ (length (r_sent r) <= 1)%nat.
+
+Lemma signing_Signing : signing_phase Signing = true.
+Proof. vm_compute. reflexivity. Qed.
+Lemma nth_error_repeat_lt {A} (x : A) n i : (i < n)%nat -> nth_error (repeat x n) i = Some x.
+Proof. revert i; induction n as [|n IH]; intros [|i] H; cbn; try lia; [reflexivity|]. apply IH. lia. Qed.
+Lemma nth_error_lt_some {A} (l : list A) i : (i < length l)%nat -> exists x, nth_error l i = Some x.
+Proof. intro H. destruct (nth_error l i) eqn:E; [eauto|]. apply nth_error_None in E. lia. Qed.
+
+Lemma peer_idx_lt m : me m < 2 -> peer_idx m < 2.
+Proof. unfold peer_idx. intro H. assert (me m = 0 \/ me m = 1) as [->| ->] by lia; cbn; lia. Qed.
+
+Lemma honest_nparts c : honest_ctx c -> nparts (cx_mach c) = 2.
+Proof. intros [H _ _ _ _ _ _]. unfold nparts, len. rewrite H. reflexivity. Qed.
+
+(* valid_transition does not panic on a decodable update in an honest context *)
+Lemma vt_no_panic c u : honest_ctx c -> upd_decodable (ps (cx_mach c)) u ->
+  valid_transition (cx_mach c) (u_st u) (u_actor u) <> PANIC.
+Proof.
+  intros Hh [_ Hd]. destruct (h_cur c Hh) as (ct & Hc & _). unfold valid_transition. rewrite Hc.
+  destruct (nparts (cx_mach c) <=? u_actor u); [discriminate|].
+  destruct (generic_valid (cx_mach c) (tx_st ct) (u_st u)) eqn:G; [|discriminate].
+  unfold app_valid_transition. pose proof (h_app c Hh) as Hk.
+  destruct (mp_kind (ps (cx_mach c))) as [[|]|] eqn:K; [|elim Hk; reflexivity|discriminate].
+  unfold generic_valid in G. rewrite !andb_true_iff in G. destruct G as [[[[[[[_ G2] _] _] _] _] _] _].
+  apply app_should_equal_eq in G2. rewrite (Hd eq_refl (eq_sym G2)). cbn [is_nodata negb].
+  destruct (pay_rows _ _ _); discriminate.
+Qed.
+
+Lemma check_no_panic c u : honest_ctx c -> upd_decodable (ps (cx_mach c)) u ->
+  snd (step (cx_mach c) (OCheckUpdate (u_st u) (u_actor u) (u_sig u) (peer_idx (cx_mach c)))) <> PANIC.
+Proof.
+  intros Hh Hd. cbn [step]. pose proof (vt_no_panic c u Hh Hd) as NP.
+  destruct (valid_transition (cx_mach c) (u_st u) (u_actor u)); cbn [snd]; try discriminate; [|elim NP; reflexivity].
+  destruct (nth_error_lt_some (mp_parts (ps (cx_mach c))) (N.to_nat (peer_idx (cx_mach c)))) as [a Ha].
+  { rewrite (h_two c Hh). pose proof (peer_idx_lt _ (h_me c Hh)). lia. }
+  rewrite Ha. destruct (verify_state a (u_st u) (u_sig u)) as [[|]|]; discriminate.
+Qed.
+
+(* acceptUpdate, step by step, in an honest context *)
+Lemma accept_update_eq c u : honest_ctx c ->
+  let m := cx_mach c in let p := peer_idx m in
+  exists ad k, nth_error (mp_parts (ps m)) (N.to_nat p) = Some ad /\ nth_error (mp_parts (ps m)) (N.to_nat (me m)) = Some k /\
+  accept_update m u p =
+    if expect m Acting Signing then
+      match valid_transition m (u_st u) (u_actor u) with
+      | OK =>
+          let m1 := set_staging m Signing (u_st u) in
+          match verify_state ad (u_st u) (u_sig u) with
+          | Some true =>
+              let sigs2 := set_nth (N.to_nat p) (Some (u_sig u)) (repeat None (N.to_nat (nparts m))) in
+              let m2 := mkMach Signing (me m) (ps m) (Some (mkTx (u_st u) sigs2)) (current m) in
+              match sign_state k (u_st u) with
+              | Some sg =>
+                  let t3 := mkTx (u_st u) (set_nth (N.to_nat (me m)) (Some sg) sigs2) in
+                  let m3 := mkMach Signing (me m) (ps m) (Some t3) (current m) in
+                  match step m3 (if st_final (u_st u) then OEnableFinal else OEnableUpdate) with
+                  | (m4, OK) => (m4, AccSigned sg)
+                  | (_, PANIC) => (m3, AccPanic)
+                  | (_, _) => (fst (step m3 ODiscard), AccSigned sg)
+                  end
+              | None => (fst (step m2 ODiscard), AccErr)
+              end
+          | _ => (fst (step m1 ODiscard), AccErr)
+          end
+      | PANIC => (m, AccPanic)
+      | _ => (m, AccErr)
+      end
+    else (m, AccErr).
+Proof.
+  intro Hh. cbn zeta. pose proof (honest_nparts c Hh) as Hn. pose proof (h_me c Hh) as Hme.
+  pose proof (peer_idx_lt _ Hme) as Hp. pose proof (peer_idx_neq (cx_mach c)) as Hne.
+  destruct (nth_error_lt_some (mp_parts (ps (cx_mach c))) (N.to_nat (peer_idx (cx_mach c)))) as [ad Ha];
+    [rewrite (h_two c Hh); lia|].
+  destruct (nth_error_lt_some (mp_parts (ps (cx_mach c))) (N.to_nat (me (cx_mach c)))) as [k Hk];
+    [rewrite (h_two c Hh); lia|].
+  exists ad, k. split; [exact Ha|]. split; [exact Hk|].
+  unfold accept_update. cbn [step].
+  destruct (expect (cx_mach c) Acting Signing); cbn [negb]; [|reflexivity].
+  destruct (valid_transition (cx_mach c) (u_st u) (u_actor u)); try reflexivity.
+  cbn [step set_staging ph staging ps me current new_tx tx_sigs tx_st]. rewrite signing_Signing. cbn [negb].
+  rewrite nth_error_repeat_lt by lia. rewrite Ha.
+  destruct (verify_state ad (u_st u) (u_sig u)) as [[|]|]; try reflexivity.
+  cbn [step ph staging ps me current tx_sigs tx_st]. rewrite signing_Signing. cbn [negb].
+  rewrite nth_error_set_nth_other by (intro C; apply Hne; lia).
+  rewrite nth_error_repeat_lt by lia. rewrite Hk.
+  destruct (sign_state k (u_st u)); reflexivity.
+Qed.
+
+Lemma enable_no_panic m f t stx : staging m = Some stx -> snd (enable_staged m f t) <> PANIC.
+Proof. intro H. unfold enable_staged. rewrite H. break_match; cbn [snd]; discriminate. Qed.
+
+Lemma accept_no_panic c u : honest_ctx c -> upd_decodable (ps (cx_mach c)) u ->
+  snd (accept_update (cx_mach c) u (peer_idx (cx_mach c))) <> AccPanic.
+Proof.
+  intros Hh Hd. destruct (accept_update_eq c u Hh) as (ad & k & _ & _ & E). cbn zeta in E. rewrite E. clear E.
+  pose proof (vt_no_panic c u Hh Hd) as NP.
+  destruct (expect (cx_mach c) Acting Signing); [|discriminate].
+  destruct (valid_transition (cx_mach c) (u_st u) (u_actor u)); try discriminate; [|elim NP; reflexivity].
+  destruct (verify_state ad (u_st u) (u_sig u)) as [[|]|]; try discriminate.
+  destruct (sign_state k (u_st u)) as [sg|]; [|discriminate].
+  match goal with |- context [step ?mm ?oo] =>
+    assert (X : snd (step mm oo) <> PANIC) by (destruct (st_final (u_st u)); cbn [step]; eapply enable_no_panic; reflexivity);
+    destruct (step mm oo) as [m4 o4] end.
+  cbn [snd] in X. destruct o4; try discriminate. elim X; reflexivity.
+Qed.
+
+(* the responder in the repaired code: a call never blocks; at most one message leaves *)
+Definition rs_ok (s : rstate) : Prop := (rs_called s = false -> rs_sent s = []) /\ (length (rs_sent s) <= 1)%nat.
+Lemma rs0_ok : rs_ok rs0. Proof. split; cbn; auto. Qed.
+Lemma respond_repaired k send s : rs_ok s ->
+  exists s', respond repaired k send s = Some s' /\ rs_ok s' /\ rs_called s' = true.
+Proof.
+  intros [H1 H2]. unfold respond. cbn [repaired fix_resp_nonblock].
+  destruct (rs_called s) eqn:C.
+  - destruct (rs_slot s <? 1)%nat; eexists; (split; [reflexivity|]); cbn [rs_called rs_sent];
+      (split; [split; [intro X; rewrite C in X; discriminate X|exact H2]|exact C]).
+  - rewrite (H1 eq_refl). cbn [rs_slot rs_called rs_sent app].
+    destruct (rs_slot s <? 1)%nat; eexists; (split; [reflexivity|]); cbn [rs_called rs_sent];
+      (split; [split; [discriminate|destruct send; cbn; lia]|reflexivity]).
+Qed.
+
+Lemma reject_last_fine m s : rs_ok s -> res_fine (reject_last repaired m s).
+Proof.
+  intro H. unfold reject_last. destruct (respond_repaired SentRej true s H) as (s' & -> & [_ L] & _).
+  split; [|split; [reflexivity|exact L]]. cbn [r_dec]. unfold fine. destruct (rs_called s); auto.
+Qed.
+Lemma reject_then_fine m s k : rs_ok s -> res_fine (reject_then repaired m s k).
+Proof.
+  intro H. unfold reject_then. destruct (respond_repaired SentRej true s H) as (s' & -> & [_ L] & _).
+  cbn [repaired fix_vc_return]. split; [|split; [reflexivity|exact L]]. unfold fine. cbn. auto.
+Qed.
+Lemma err_logged_fine m s : rs_ok s -> res_fine (err_logged m s).
+Proof. intros [_ L]. split; [|split; [reflexivity|exact L]]. unfold fine. cbn. auto. Qed.
+
+Lemma auto_accept_fine c u s pa k : honest_ctx c -> upd_decodable (ps (cx_mach c)) u -> rs_ok s ->
+  (forall m' s', rs_ok s' -> res_fine (k m' s')) ->
+  res_fine (auto_accept repaired (cx_mach c) u (peer_idx (cx_mach c)) s pa k).
+Proof.
+  intros Hh Hd Hs Hk. unfold auto_accept. destruct (rs_called s).
+  - destruct (respond_repaired SentAcc false s Hs) as (s' & -> & Hs' & _). apply Hk. exact Hs'.
+  - pose proof (accept_no_panic c u Hh Hd) as NP.
+    destruct (accept_update (cx_mach c) u (peer_idx (cx_mach c))) as [m' [sg| |]]; cbn [snd] in NP.
+    + destruct (respond_repaired SentAcc true s Hs) as (s' & -> & [_ L] & _).
+      split; [|split; [reflexivity|exact L]]. unfold fine. cbn. auto.
+    + destruct (respond_repaired SentAcc false s Hs) as (s' & -> & Hs' & _). apply Hk. exact Hs'.
+    + elim NP; reflexivity.
+Qed.
+
+(* ---------- the repaired validators do not index out of range ---------- *)
+Lemma alloc_valid_rows a : alloc_valid a = true ->
+  Forall (fun r => length r = N.to_nat (num_parts (al_bals a))) (al_bals a)
+  /\ length (al_bals a) = length (al_assets a).
+Proof.
+  unfold alloc_valid. intro H. split_and. split.
+  - apply Forall_forall. intros r Hr.
+    match goal with H : forallb _ (al_bals a) = true |- _ => rewrite forallb_forall in H; specialize (H r Hr) end.
+    split_and. match goal with H : (len r =? _) = true |- _ => apply N.eqb_eq in H; unfold len in H end. lia.
+  - match goal with H : (len (al_bals a) =? len (al_assets a)) = true |- _ => apply N.eqb_eq in H; unfold len in H end. lia.
+Qed.
+
+Lemma check_sigs_no_panic parts st i sigs : (i + length sigs <= length parts)%nat ->
+  check_sigs parts st i sigs <> VPanic.
+Proof.
+  revert i; induction sigs as [|sg sigs IH]; intros i H; cbn [check_sigs length] in *; [discriminate|].
+  destruct (nth_error_lt_some parts i) as [a Ha]; [lia|]. rewrite Ha.
+  destruct sg as [g|]; [|discriminate]. destruct (verify_state a st g) as [[|]|]; try discriminate.
+  apply IH. lia.
+Qed.
+
+Lemma fill_row_some row acc np p imap : (p + length imap <= length row)%nat ->
+  forallb (fun q => (N.to_nat q <? np)%nat) imap = true ->
+  exists r, fill_row row acc np p imap = Some r /\ length r = length acc.
+Proof.
+  revert acc p; induction imap as [|q imap IH]; intros acc p H F; cbn [fill_row length forallb] in *.
+  - eauto.
+  - apply andb_true_iff in F as [F1 F2]. destruct (nth_error_lt_some row p) as [x Hx]; [lia|]. rewrite Hx, F1.
+    destruct (IH (set_nth (N.to_nat q) x acc) (S p)) as (r & -> & L); [lia|exact F2|].
+    exists r. split; [reflexivity|]. rewrite L. apply set_nth_length.
+Qed.
+
+Lemma transform_some b np imap :
+  Forall (fun row => (length imap <= length row)%nat) b ->
+  forallb (fun q => (N.to_nat q <? np)%nat) imap = true ->
+  exists virt, transform_balances b np imap = Some virt /\ length virt = length b
+               /\ Forall (fun r => length r = np) virt.
+Proof.
+  intros Hb F. unfold transform_balances. induction Hb as [|row b Hr Hb IH]; cbn [map opt_all].
+  - exists []. auto.
+  - destruct (fill_row_some row (repeat 0%Z np) np 0 imap) as (r & -> & L); [lia|exact F|].
+    destruct IH as (virt & -> & Lv & Fv). exists (r :: virt). split; [reflexivity|]. split; [cbn; lia|].
+    constructor; [rewrite L; apply repeat_length|exact Fv].
+Qed.
+
+Lemma same_dims_of_rows a b n : length a = length b ->
+  Forall (fun r => length r = n) a -> Forall (fun r => length r = n) b -> same_dims a b = true.
+Proof.
+  intros L Fa Fb. apply (all2_intro _ a b [] []); [exact L|]. intros i Hi. apply Nat.eqb_eq.
+  rewrite Forall_forall in Fa, Fb. rewrite (Fa (nth i a [])) by (apply nth_In; exact Hi).
+  rewrite (Fb (nth i b [])) by (apply nth_In; lia). reflexivity.
+Qed.
+
+Lemma validate_vfund_no_panic cur u init imap :
+  alloc_valid (st_alloc (ss_state init)) = true ->
+  validate_vfund repaired cur u init imap <> VPanic.
+Proof.
+  intro Vi. unfold validate_vfund. cbn [repaired fix_vc_dims fix_fund_exact fix_locked_rest andb].
+  destruct (negb (bytes_eqb _ _)); [discriminate|]. destruct (negb (vp_virtual _)); [discriminate|].
+  destruct (negb (length _ =? 0)%nat); [discriminate|].
+  destruct (negb _) eqn:D1; [discriminate|]. boolify.
+  match goal with H : (length (ss_sigs init) =? _)%nat = true |- _ => apply Nat.eqb_eq in H; rename H into L1 end.
+  match goal with H : (nat_np (ss_state init) =? _)%nat = true |- _ => apply Nat.eqb_eq in H; rename H into L2 end.
+  pose proof (check_sigs_no_panic (vp_parts (ss_params init)) (ss_state init) 0 (ss_sigs init)) as CS.
+  destruct (check_sigs _ _ _ _); [|discriminate|elim CS; [lia|reflexivity]].
+  destruct (negb (length _ =? length imap)%nat) eqn:D2; [discriminate|]. boolify. apply Nat.eqb_eq in D2.
+  destruct (negb (forallb _ imap)) eqn:D3; [discriminate|]. boolify.
+  destruct (find_sa _ (al_locked (st_alloc cur))); [discriminate|].
+  destruct (find_sa _ (al_locked (st_alloc (u_st u)))) as [sa|]; [|discriminate].
+  destruct (negb (suballoc_equal _ _)) eqn:D4; [discriminate|]. boolify. apply suballoc_equal_eq in D4. subst sa. cbn [sa_imap].
+  destruct (negb (nlist_eqb _ _)); [discriminate|]. destruct (negb (nlist_eqb _ _)); [discriminate|].
+  destruct (alloc_valid_rows _ Vi) as [Rows _].
+  destruct (transform_some (al_bals (st_alloc (ss_state init))) (nat_np cur) imap) as (virt & -> & _ & _).
+  - eapply Forall_impl; [|exact Rows]. cbn beta. intros r Hr. rewrite Hr. unfold nat_np in L2. lia.
+  - exact D3.
+  - break_match; discriminate.
+Qed.
+
+Lemma validate_vsettle_no_panic cur u fin :
+  alloc_valid (st_alloc cur) = true -> alloc_valid (st_alloc (ss_state fin)) = true ->
+  validate_vsettle repaired cur u fin <> VPanic.
+Proof.
+  intros Vc Vf. unfold validate_vsettle. cbn [repaired fix_vc_dims fix_locked_rest andb].
+  destruct (negb (bytes_eqb _ _)); [discriminate|].
+  destruct (negb _) eqn:D1; [discriminate|]. boolify.
+  match goal with H : (length (ss_sigs fin) =? _)%nat = true |- _ => apply Nat.eqb_eq in H; rename H into L1 end.
+  pose proof (check_sigs_no_panic (vp_parts (ss_params fin)) (ss_state fin) 0 (ss_sigs fin)) as CS.
+  destruct (check_sigs _ _ _ _); [|discriminate|elim CS; [lia|reflexivity]].
+  destruct (negb (nlist_eqb _ _)) eqn:D2; [discriminate|]. boolify. apply nlist_eqb_eq in D2.
+  destruct (find_sa _ (al_locked (st_alloc cur))) as [sa|]; [|discriminate].
+  destruct (negb (zlist_eqb _ _)); [discriminate|].
+  destruct (find_sa _ (al_locked (st_alloc (u_st u)))); [discriminate|].
+  destruct (negb _) eqn:D3; [discriminate|]. boolify.
+  match goal with H : (length (sa_imap sa) =? _)%nat = true |- _ => apply Nat.eqb_eq in H; rename H into L3 end.
+  destruct (alloc_valid_rows _ Vf) as [RowsF LF]. destruct (alloc_valid_rows _ Vc) as [RowsC LC].
+  destruct (transform_some (al_bals (st_alloc (ss_state fin))) (nat_np cur) (sa_imap sa)) as (virt & -> & Lv & Fv).
+  - eapply Forall_impl; [|exact RowsF]. cbn beta. intros r Hr. rewrite Hr. unfold nat_np in L3. lia.
+  - assumption.
+  - unfold bals_add, bals_operate.
+    rewrite (same_dims_of_rows (al_bals (st_alloc cur)) virt (nat_np cur)); [break_match; discriminate| |exact RowsC|exact Fv].
+    rewrite Lv, LF, LC, D2. reflexivity.
+Qed.
+
+Lemma first_settle_no_panic v cur new l : (forall ic, In ic l -> same_dims (al_bals (st_alloc cur)) (ic_bals ic) = true) ->
+  first_settle v cur new l <> FPanic.
+Proof.
+  induction l as [|x l IH]; intro H; cbn [first_settle]; [discriminate|].
+  unfold settle_filter, bals_add, bals_operate. rewrite (H x (or_introl eq_refl)).
+  break_match; try discriminate; apply IH; intros ic Hic; apply H; right; exact Hic.
+Qed.
+
+(* C12 for the update handlers: in an honest context every decodable request ends in Drop, AskUser,
+   AutoAccept or Reject, the handler has returned with the machine mutex released and at most one
+   response has been sent *)
+Lemma C12_update_fine c r : honest_ctx c -> req_decodable (ps (cx_mach c)) r ->
+  res_fine (handle_update_req repaired c r).
+Proof.
+  intros Hh [Hd Hs]. unfold handle_update_req. cbn zeta. rewrite (h_free c Hh).
+  pose proof (check_no_panic c (req_upd r) Hh Hd) as NP.
+  destruct (snd (step (cx_mach c) _)) eqn:CU; [| |split; [unfold fine; cbn; auto|split; [reflexivity|cbn; lia]]..|elim NP; reflexivity].
+  2:{ split; [unfold fine; cbn; auto|split; [reflexivity|cbn; lia]]. }
+  destruct (h_cur c Hh) as (ct & Hc & Vc & Np). rewrite Hc.
+  destruct r as [u|u init imap|u fin]; cbn [req_upd] in *.
+  - pose proof (first_settle_no_panic repaired (tx_st ct) (u_st u) (cx_settle c)) as FS.
+    destruct (first_fund repaired (tx_st ct) (u_st u) (cx_fund c)) as [|ic|] eqn:FF.
+    + destruct (first_settle repaired (tx_st ct) (u_st u) (cx_settle c)) as [|ic|] eqn:FS'.
+      * destruct (valid_two_party _ _ _); (split; [unfold fine; cbn; auto|split; [reflexivity|cbn; lia]]).
+      * unfold intercept. apply first_settle_hit in FS' as [I _].
+        rewrite (h_await c Hh ic) by (apply in_or_app; right; exact I).
+        apply auto_accept_fine; auto using rs0_ok, err_logged_fine.
+      * elim FS; [|reflexivity]. intros ic Hic. eapply (h_settle c Hh); eassumption.
+    + unfold intercept. apply first_fund_hit in FF as [I _].
+      rewrite (h_await c Hh ic) by (apply in_or_app; left; exact I).
+      apply auto_accept_fine; auto using rs0_ok, err_logged_fine.
+    + (* first_fund never panics *)
+      exfalso. clear -FF. induction (cx_fund c) as [|x l IH]; cbn [first_fund] in FF; [discriminate|].
+      destruct (fund_filter _ _ _ x); [discriminate|auto].
+  - unfold handle_vfund. pose proof (validate_vfund_no_panic (tx_st ct) u init imap Hs) as VP.
+    destruct (validate_vfund repaired (tx_st ct) u init imap); [|apply reject_then_fine, rs0_ok|elim VP; reflexivity].
+    destruct (cx_vmatch c); [|apply reject_then_fine, rs0_ok].
+    apply auto_accept_fine; auto using rs0_ok, err_logged_fine.
+  - unfold handle_vsettle. pose proof (validate_vsettle_no_panic (tx_st ct) u fin Vc Hs) as VP.
+    destruct (validate_vsettle repaired (tx_st ct) u fin); [|apply reject_then_fine, rs0_ok|elim VP; reflexivity].
+    destruct (cx_vmatch c); [|apply reject_last_fine, rs0_ok].
+    apply auto_accept_fine; auto using rs0_ok. intros. apply reject_last_fine. assumption.
+Qed.
+
+(* ---------- the context after a handled request is honest again: sequences of requests ---------- *)
+Lemma discard_frame m : let m' := fst (step m ODiscard) in ps m' = ps m /\ me m' = me m /\ current m' = current m.
+Proof. cbn [step]. destruct (expect m Signing Acting); cbn [fst ps me current]; auto. Qed.
+Lemma enable_frame m f t : let m' := fst (enable_staged m f t) in
+  ps m' = ps m /\ me m' = me m /\ (current m' = current m \/ exists stx, staging m = Some stx /\ current m' = Some stx).
+Proof. unfold enable_staged. break_match; cbn [fst add_tx ps me current]; eauto 6. Qed.
+
+Lemma accept_update_post c u : honest_ctx c ->
+  let m := cx_mach c in let m' := fst (accept_update m u (peer_idx m)) in
+  ps m' = ps m /\ me m' = me m /\
+  (current m' = current m \/
+   exists t, current m' = Some t /\ tx_st t = u_st u /\ valid_transition m (u_st u) (u_actor u) = OK).
+Proof.
+  intro Hh. cbn zeta. destruct (accept_update_eq c u Hh) as (ad & k & _ & _ & E). cbn zeta in E. rewrite E. clear E.
+  destruct (expect (cx_mach c) Acting Signing); [|cbn [fst]; auto].
+  destruct (valid_transition (cx_mach c) (u_st u) (u_actor u)) eqn:VT; try (cbn [fst]; auto; fail).
+  destruct (verify_state ad (u_st u) (u_sig u)) as [[|]|].
+  2,3: cbn [fst]; match goal with |- context [step ?mm ODiscard] => destruct (discard_frame mm) as (A & B & C) end;
+       rewrite A, B, C; cbn [set_staging ps me current]; auto.
+  destruct (sign_state k (u_st u)) as [sg|].
+  2: cbn [fst]; match goal with |- context [step ?mm ODiscard] => destruct (discard_frame mm) as (A & B & C) end;
+     rewrite A, B, C; cbn [ps me current]; auto.
+  match goal with |- context [step ?mm (if ?b then OEnableFinal else OEnableUpdate)] =>
+    set (m3 := mm);
+    assert (X : let m4 := fst (step m3 (if b then OEnableFinal else OEnableUpdate)) in
+                ps m4 = ps m3 /\ me m4 = me m3 /\ (current m4 = current m3 \/ exists stx, staging m3 = Some stx /\ current m4 = Some stx))
+      by (destruct b; cbn [step]; apply enable_frame);
+    destruct (step m3 (if b then OEnableFinal else OEnableUpdate)) as [m4 o4] end.
+  cbn zeta in X. cbn [fst] in X. destruct X as (A & B & C).
+  destruct o4; cbn [fst].
+  - rewrite A, B. subst m3. cbn [ps me current staging] in *. split; [reflexivity|]. split; [reflexivity|].
+    destruct C as [C|(stx & S & C)]; [left; exact C|right]. injection S as <-. eexists. split; [exact C|]. auto.
+  - destruct (discard_frame m3) as (A' & B' & C'). rewrite A', B', C'. subst m3. cbn [ps me current]. auto.
+  - destruct (discard_frame m3) as (A' & B' & C'). rewrite A', B', C'. subst m3. cbn [ps me current]. auto.
+  - subst m3. cbn [ps me current]. auto.
+Qed.
+
+Lemma auto_accept_mach v m u p s pa k : rs_called s = false -> (forall m' s', r_mach (k m' s') = m') ->
+  r_mach (auto_accept v m u p s pa k) = fst (accept_update m u p).
+Proof.
+  intros Hs Hk. unfold auto_accept. rewrite Hs.
+  destruct (accept_update m u p) as [m' [sg| |]]; cbn [fst].
+  - destruct (respond v SentAcc true s); reflexivity.
+  - destruct (respond v SentAcc false s); [apply Hk|reflexivity].
+  - reflexivity.
+Qed.
+Lemma reject_last_mach v m s : r_mach (reject_last v m s) = m.
+Proof. unfold reject_last. destruct (respond v SentRej true s); reflexivity. Qed.
+
+Lemma hur_mach c r : let m := cx_mach c in
+  r_mach (handle_update_req repaired c r) = m \/
+  r_mach (handle_update_req repaired c r) = fst (accept_update m (req_upd r) (peer_idx m)).
+Proof.
+  cbn zeta. unfold handle_update_req. cbn zeta.
+  destruct (cx_stuck c); [left; reflexivity|].
+  destruct (snd (step (cx_mach c) _)); try (left; reflexivity).
+  destruct (current (cx_mach c)) as [ct|]; [|left; reflexivity].
+  assert (RT : forall s k, r_mach (reject_then repaired (cx_mach c) s k) = cx_mach c).
+  { intros s k. unfold reject_then. cbn [repaired fix_vc_return]. destruct (respond _ _ _ _); reflexivity. }
+  destruct r as [u|u init imap|u fin]; cbn [req_upd].
+  - destruct (first_fund _ _ _ _) as [|ic|]; [|unfold intercept; destruct (ic_awaited ic); [right; apply auto_accept_mach; auto|left; reflexivity]|left; reflexivity].
+    destruct (first_settle _ _ _ _) as [|ic|]; [|unfold intercept; destruct (ic_awaited ic); [right; apply auto_accept_mach; auto|left; reflexivity]|left; reflexivity].
+    destruct (valid_two_party _ _ _); left; reflexivity.
+  - unfold handle_vfund. destruct (validate_vfund _ _ _ _ _); [|left; apply RT|left; reflexivity].
+    destruct (cx_vmatch c); [right; apply auto_accept_mach; auto|left; apply RT].
+  - unfold handle_vsettle. destruct (validate_vsettle _ _ _ _); [|left; apply RT|left; reflexivity].
+    destruct (cx_vmatch c); [right; apply auto_accept_mach; auto; intros; apply reject_last_mach|left; apply reject_last_mach].
+Qed.
+
+Lemma generic_valid_dims m cur new : alloc_valid (st_alloc cur) = true ->
+  num_parts (al_bals (st_alloc cur)) = nparts m -> generic_valid m cur new = true ->
+  alloc_valid (st_alloc new) = true /\ num_parts (al_bals (st_alloc new)) = nparts m
+  /\ same_dims (al_bals (st_alloc cur)) (al_bals (st_alloc new)) = true.
+Proof.
+  intros Vc Nc G. apply (generic_valid_iff m cur new Vc) in G.
+  destruct G as (_ & _ & _ & _ & A & V & N & _). split; [exact V|]. split; [exact N|].
+  destruct (alloc_valid_rows _ Vc) as [Rc Lc]. destruct (alloc_valid_rows _ V) as [Rn Ln].
+  apply (same_dims_of_rows _ _ (N.to_nat (nparts m))); [rewrite Lc, Ln, A; reflexivity| |].
+  - rewrite <- Nc. exact Rc.
+  - rewrite <- N. exact Rn.
+Qed.
+
+Lemma honest_after c m' fund' settle' : honest_ctx c ->
+  ps m' = ps (cx_mach c) -> me m' = me (cx_mach c) ->
+  (current m' = current (cx_mach c) \/
+   exists t s a, current m' = Some t /\ tx_st t = s /\ valid_transition (cx_mach c) s a = OK) ->
+  (forall ic, In ic fund' -> In ic (cx_fund c)) -> (forall ic, In ic settle' -> In ic (cx_settle c)) ->
+  honest_ctx (mkCtx m' fund' settle' (cx_vmatch c) (cx_busy c) (cx_stuck c)).
+Proof.
+  intros Hh Hps Hme Hcur Hf Hs. destruct (h_cur c Hh) as (ct & Hc & Vc & Np).
+  assert (X : exists ct', current m' = Some ct' /\ alloc_valid (st_alloc (tx_st ct')) = true
+               /\ num_parts (al_bals (st_alloc (tx_st ct'))) = nparts (cx_mach c)
+               /\ same_dims (al_bals (st_alloc (tx_st ct))) (al_bals (st_alloc (tx_st ct'))) = true).
+  { destruct Hcur as [E|(t & s & a & E & <- & VT)].
+    - exists ct. rewrite E. repeat split; auto. apply same_dims_refl.
+    - exists t. split; [exact E|]. unfold valid_transition in VT. rewrite Hc in VT.
+      destruct (nparts (cx_mach c) <=? a); [discriminate|].
+      destruct (generic_valid (cx_mach c) (tx_st ct) (tx_st t)) eqn:G; [|discriminate].
+      apply generic_valid_dims; assumption. }
+  destruct X as (ct' & Hc' & Vc' & Np' & SD).
+  constructor; cbn [cx_mach cx_fund cx_settle cx_stuck].
+  - rewrite Hps. exact (h_two c Hh).
+  - rewrite Hme. exact (h_me c Hh).
+  - rewrite Hps. exact (h_app c Hh).
+  - exists ct'. unfold nparts in *. rewrite Hps. auto.
+  - intros ic ct0 Hic Hct0. rewrite Hc' in Hct0. injection Hct0 as <-.
+    eapply same_dims_trans; [apply same_dims_sym; exact SD|]. eapply (h_settle c Hh); [apply Hs; exact Hic|exact Hc].
+  - intros ic Hic. apply (h_await c Hh). apply in_app_or in Hic as [H|H]; apply in_or_app; [left; auto|right; auto].
+  - exact (h_free c Hh).
+Qed.
+
+Lemma remove_ic_sub id l ic : In ic (remove_ic id l) -> In ic l.
+Proof. unfold remove_ic. intro H. apply filter_In in H. tauto. Qed.
+
+Lemma honest_post c r a : honest_ctx c -> req_decodable (ps (cx_mach c)) r -> honest_ctx (post_ctx repaired c r a).
+Proof.
+  intros Hh Hd. pose proof (C12_update_fine c r Hh Hd) as [F _].
+  destruct (accept_update_post c (req_upd r) Hh) as (P1 & P2 & P3). cbn zeta in *.
+  assert (P3' : current (fst (accept_update (cx_mach c) (req_upd r) (peer_idx (cx_mach c)))) = current (cx_mach c) \/
+     exists t s a0, current (fst (accept_update (cx_mach c) (req_upd r) (peer_idx (cx_mach c)))) = Some t /\ tx_st t = s
+                    /\ valid_transition (cx_mach c) s a0 = OK).
+  { destruct P3 as [E|(t & E & T & VT)]; [left; exact E|right; eauto 6]. }
+  unfold post_ctx.
+  assert (M : forall fund' settle', (forall ic, In ic fund' -> In ic (cx_fund c)) -> (forall ic, In ic settle' -> In ic (cx_settle c)) ->
+              honest_ctx (mkCtx (r_mach (handle_update_req repaired c r)) fund' settle' (cx_vmatch c) (cx_busy c) (cx_stuck c))).
+  { intros f s Hf Hs. destruct (hur_mach c r) as [E|E]; rewrite E.
+    - apply honest_after; auto.
+    - apply honest_after; auto. }
+  destruct (r_dec (handle_update_req repaired c r)) eqn:D;
+    try (destruct F as [F|[F|[F|F]]]; discriminate F).
+  - (* Drop *) destruct (r_path _) as [[|ic|ic| |]|]; unfold set_mach; apply M; eauto using remove_ic_sub.
+  - (* AskUser *) unfold set_mach, user_answer. destruct a; cbn [fst].
+    + destruct (accept_update (cx_mach c) (req_upd r) (peer_idx (cx_mach c))) as [m' [sg| |]] eqn:AU; cbn [fst] in *;
+        apply honest_after; auto.
+    + apply honest_after; auto.
+  - destruct (r_path _) as [[|ic|ic| |]|]; unfold set_mach; apply M; eauto using remove_ic_sub.
+  - destruct (r_path _) as [[|ic|ic| |]|]; unfold set_mach; apply M; eauto using remove_ic_sub.
+Qed.
+
+Lemma post_ctx_ps c r a : honest_ctx c -> ps (cx_mach (post_ctx repaired c r a)) = ps (cx_mach c).
+Proof.
+  intro Hh. destruct (accept_update_post c (req_upd r) Hh) as (P1 & _). cbn zeta in P1.
+  assert (M : ps (r_mach (handle_update_req repaired c r)) = ps (cx_mach c))
+    by (destruct (hur_mach c r) as [E|E]; rewrite E; auto).
+  unfold post_ctx. destruct (r_dec (handle_update_req repaired c r)); try exact M;
+    try (destruct (r_path _) as [[|ic|ic| |]|]; exact M).
+  unfold set_mach, user_answer. cbn [cx_mach]. destruct a; [|reflexivity].
+  destruct (accept_update (cx_mach c) (req_upd r) (peer_idx (cx_mach c))) as [m' [sg| |]]; exact P1.
+Qed.
+
+(* every sequence of decodable requests, with arbitrary answers of the user: no panic, no blocked
+   handler, the machine mutex is free after each request *)
+Lemma C12_sequences c ins : honest_ctx c ->
+  (forall r a, In (r, a) ins -> req_decodable (ps (cx_mach c)) r) ->
+  Forall res_fine (run_decs repaired c ins) /\ honest_ctx (run_ctx repaired c ins).
+Proof.
+  revert c; induction ins as [|[r a] ins IH]; intros c Hh Hd; cbn [run_decs run_ctx]; [split; [constructor|exact Hh]|].
+  assert (D : req_decodable (ps (cx_mach c)) r) by (apply (Hd r a); left; reflexivity).
+  destruct (IH (post_ctx repaired c r a)) as [F H].
+  - apply honest_post; assumption.
+  - intros r' a' Hin. rewrite post_ctx_ps by exact Hh. apply (Hd r' a'). right. exact Hin.
+  - split; [constructor; [apply C12_update_fine; assumption|exact F]|exact H].
+Qed.
+
+(* ---------- the client: lookup by channel id; sync ---------- *)
+Lemma lookup_in cl id c : lookup cl id = Some c -> In c cl.
+Proof. unfold lookup. intro H. apply find_some in H. tauto. Qed.
+
+Lemma C12_client_update_fine cl r : Forall honest_ctx cl ->
+  (forall c, In c cl -> req_decodable (ps (cx_mach c)) r) ->
+  res_fine (handle_update repaired cl r).
+Proof.
+  intros Hh Hd. unfold handle_update. destruct (lookup cl _) as [c|] eqn:L.
+  - apply lookup_in in L. rewrite Forall_forall in Hh. apply C12_update_fine; auto.
+  - split; [left; reflexivity|split; [reflexivity|cbn; lia]].
+Qed.
+
+(* handleSyncMsg (repaired): any sync message, from anybody, in any context *)
+Lemma C12_sync_fine cl reach s :
+  let res := handle_sync repaired cl reach s in
+  (r_dec res = Drop \/ r_dec res = Reply) /\ r_unlocked res = true.
+Proof.
+  cbn zeta. unfold handle_sync. cbn [repaired fix_sync_nil fix_sync_unlock].
+  destruct (sy_tx s) as [[st sg]|]; [|auto].
+  destruct (lookup cl (st_id st)) as [c|]; [|auto].
+  destruct (cx_busy c || cx_stuck c); [auto|]. destruct (negb reach); [auto|].
+  destruct (phase_eqb _ _); auto.
+Qed.
+(* the machine a sync reply leaves behind keeps the context honest *)
+Lemma sync_post_honest c : honest_ctx c -> honest_ctx (set_mach c (fst (step (cx_mach c) ODiscard))).
+Proof.
+  intro Hh. destruct (discard_frame (cx_mach c)) as (A & B & C). unfold set_mach. apply honest_after; auto.
+Qed.
+
+(* ---------- witnesses: what the code did before the repairs ---------- *)
+Definition wid : bytes := repeat Byte.x07 32.
+Definition wX : bytes := repeat Byte.x21 32.
+Definition wY : bytes := repeat Byte.x22 32.
+Definition wZ : bytes := repeat Byte.x23 32.
+Definition wP : mparams := mkMP wid [1; 2] None None.
+Definition wst (v : N) (b : list (list Z)) (l : list suballoc) : state :=
+  mkState wid v (mkAlloc [0] [5] b l) None [] false.
+Definition wfull (s : state) : tx := mkTx s [Some (SigOf 1 (enc_state s)); Some (SigOf 2 (enc_state s))].
+(* the honest client is participant 0 (address 1), the peer participant 1 (address 2) *)
+Definition wmach (p : phase) (s : state) : mach := mkMach p 0 wP None (Some (wfull s)).
+Definition wupd (s : state) (actor : N) : upd := mkUpd s actor (SigOf 2 (enc_state s)).
+Definition wS0 : state := wst 0 [[60; 40]%Z] [].
+Definition wc0 : chanctx := mkCtx (wmach Acting wS0) [] [] false false false.
+
+Lemma honest_wc p s f st vm : alloc_valid (st_alloc s) = true -> num_parts (al_bals (st_alloc s)) = 2 ->
+  (forall ic, In ic st -> same_dims (al_bals (st_alloc s)) (ic_bals ic) = true) ->
+  (forall ic, In ic (f ++ st) -> ic_awaited ic = true) ->
+  honest_ctx (mkCtx (wmach p s) f st vm false false).
+Proof.
+  intros V N S A. constructor; cbn [cx_mach cx_fund cx_settle cx_stuck wmach ps me wP mp_parts mp_kind current].
+  - reflexivity.
+  - lia.
+  - discriminate.
+  - exists (wfull s). auto.
+  - intros ic ct Hic E. injection E as <-. apply S. exact Hic.
+  - exact A.
+  - reflexivity.
+Qed.
+Lemma dec_w s a : alloc_valid (st_alloc s) = true -> upd_decodable wP (wupd s a).
+Proof. intro V. split; [exact V|]. intro K. discriminate K. Qed.
+
+(* a virtual channel between addresses 7 and 8 *)
+Definition wV : bytes := repeat Byte.x31 32.
+Definition wvst (b : list (list Z)) (fin : bool) : state := mkState wV 3 (mkAlloc [0] [5] b []) None [] fin.
+Definition wsigned (parts : list N) (virt : bool) (s : state) (signers : list N) : signed :=
+  mkSigned (mkVP wV parts virt) s (map (fun k => Some (SigOf k (enc_state s))) signers).
+
+(* row 15: a funding proposal that fails validation is rejected, the handler goes on, answers a second
+   time after the watcher's timeout and blocks for ever with the machine mutex held *)
+Definition w15 : req := RVFund (wupd (wst 1 [[60; 40]%Z] []) 1) (wsigned [7; 8] false (wvst [[4; 6]%Z] false) [7; 8]) [0; 1].
+Lemma C12_vc_return_refuted : exists c r, honest_ctx c /\ req_decodable (ps (cx_mach c)) r /\
+  let res := handle_update_req original c r in r_dec res = Block /\ r_unlocked res = false /\ r_sent res = [SentRej].
+Proof.
+  exists wc0, w15. split; [apply honest_wc; try reflexivity; intros ic []|].
+  split; [split; [apply dec_w; reflexivity|reflexivity]|]. vm_compute. auto.
+Qed.
+(* ... and with `return` after the rejection: one rejection, handler returned *)
+Example vc_return_repaired : let res := handle_update_req repaired wc0 w15 in
+  r_dec res = Reject /\ r_unlocked res = true /\ r_sent res = [SentRej].
+Proof. vm_compute. auto. Qed.
+
+(* row 16: two signatures for a channel with one participant: Params.Parts[1] *)
+Definition w16 : req := RVFund (wupd (wst 1 [[60; 40]%Z] []) 1) (wsigned [7] true (wvst [[4; 6]%Z] false) [7; 8]) [0].
+Lemma C12_vc_dims_refuted : exists c r, honest_ctx c /\ req_decodable (ps (cx_mach c)) r /\
+  r_dec (handle_update_req original c r) = Panic.
+Proof.
+  exists wc0, w16. split; [apply honest_wc; try reflexivity; intros ic []|].
+  split; [split; [apply dec_w; reflexivity|reflexivity]|]. vm_compute. reflexivity.
+Qed.
+(* an index map entry beyond the parent's participants: transformBalances *)
+Definition w16b : req :=
+  RVFund (wupd (wst 1 [[50; 40]%Z] [mkSA wV [10%Z] [0; 5]]) 1) (wsigned [7; 8] true (wvst [[4; 6]%Z] false) [7; 8]) [0; 5].
+Lemma C12_transform_refuted : exists c r, honest_ctx c /\ req_decodable (ps (cx_mach c)) r /\
+  r_dec (handle_update_req original c r) = Panic.
+Proof.
+  exists wc0, w16b. split; [apply honest_wc; try reflexivity; intros ic []|].
+  split; [split; [apply dec_w; reflexivity|reflexivity]|]. vm_compute. reflexivity.
+Qed.
+Example vc_dims_repaired : r_dec (handle_update_req repaired wc0 w16) = Reject
+                           /\ r_dec (handle_update_req repaired wc0 w16b) = Reject.
+Proof. vm_compute. auto. Qed.
+
+(* the responder's one-slot signal: a valid, matched settlement proposal for a channel that is not in
+   phase Acting - Accept fails after signalling, the handler rejects after the timeout and blocks *)
+Definition no_nonblock : variant := mkVar true true true true false true true.
+Definition wS17 : state := wst 4 [[50; 40]%Z] [mkSA wV [10%Z] [0; 1]].
+Definition wc17 : chanctx := mkCtx (wmach Registered wS17) [] [] true false false.
+Definition w17 : req := RVSettle (wupd (wst 5 [[54; 46]%Z] []) 1) (wsigned [7; 8] true (wvst [[4; 6]%Z] true) [7; 8]).
+Lemma C12_resp_nonblock_refuted : exists c r, honest_ctx c /\ req_decodable (ps (cx_mach c)) r /\
+  r_dec (handle_update_req no_nonblock c r) = Block.
+Proof.
+  exists wc17, w17. split; [apply honest_wc; try reflexivity; intros ic []|].
+  split; [split; [apply dec_w; reflexivity|reflexivity]|]. vm_compute. reflexivity.
+Qed.
+Example resp_nonblock_repaired : let res := handle_update_req repaired wc17 w17 in
+  r_dec res = Drop /\ r_unlocked res = true.
+Proof. vm_compute. auto. Qed.
+
+(* row 14: a sync message without a transaction; a sync message while a local operation holds the
+   machine mutex for longer than the reply timeout *)
+Lemma C12_sync_nil_refuted : exists s, r_dec (handle_sync original [] true s) = Panic.
+Proof. exists (mkSync 0 None). reflexivity. Qed.
+Definition wc_busy : chanctx := mkCtx (wmach Signing wS0) [] [] false true false.
+Lemma C12_sync_unlock_refuted : exists cl s, r_dec (handle_sync (mkVar true false true true true true true) cl true s) = Panic.
+Proof. exists [wc_busy], (mkSync 3 (Some (wS0, []))). vm_compute. reflexivity. Qed.
+Example sync_repaired : r_dec (handle_sync repaired [] true (mkSync 0 None)) = Drop
+  /\ r_dec (handle_sync repaired [wc_busy] true (mkSync 3 (Some (wS0, [])))) = Drop
+  /\ r_dec (handle_sync repaired [wc0] true (mkSync 3 (Some (wS0, [])))) = Reply.
+Proof. vm_compute. auto. Qed.
+
+(* known finding: an interceptor that nobody awaits (the routine that registered it gave up) keeps
+   the handler, and with it the machine mutex, for ever - also in the repaired code *)
+Definition wicX (aw : bool) : icept := mkIc wX [[5; 5]%Z] aw.
+Definition wfundX : req := RUpdate (wupd (wst 1 [[55; 35]%Z] [mkSA wX [10%Z] []]) 1).
+Lemma C12_unawaited_interceptor_blocks : exists c r,
+  req_decodable (ps (cx_mach c)) r /\ r_dec (handle_update_req repaired c r) = Block.
+Proof.
+  exists (mkCtx (wmach Acting wS0) [wicX false] [] false false false), wfundX.
+  split; [split; [apply dec_w; reflexivity|exact I]|]. vm_compute. reflexivity.
+Qed.
+
+(* ---------- C07 witnesses ---------- *)
+(* row 17a: the sub-channel is to be funded with 5 from each side; the update takes all 10 from the
+   honest client (participant 0) - the per-asset totals are all the original filter looks at *)
+Definition wc_fund : chanctx := mkCtx (wmach Acting wS0) [wicX true] [] false false false.
+Definition w17a : req := RUpdate (wupd (wst 1 [[50; 40]%Z] [mkSA wX [10%Z] []]) 1).
+Lemma C07_fund_wrong_party_refuted : exists c r sg ct,
+  honest_ctx c /\ req_decodable (ps (cx_mach c)) r /\ current (cx_mach c) = Some ct /\
+  countersigns original c r = Some sg /\
+  ~ safe_change c (tx_st ct) r (r_dec (handle_update_req original c r)).
+Proof.
+  exists wc_fund, w17a, (SigOf 1 (enc_state (u_st (req_upd w17a)))), (wfull wS0).
+  split. { apply honest_wc; try reflexivity; [intros ic []|]. intros ic [<-|[]]. reflexivity. }
+  split; [split; [apply dec_w; reflexivity|exact I]|]. split; [reflexivity|]. split; [vm_compute; reflexivity|].
+  assert (D : r_dec (handle_update_req original wc_fund w17a) = AutoAccept) by (vm_compute; reflexivity).
+  rewrite D. unfold safe_change. cbn [w17a req_upd cx_fund cx_settle wc_fund].
+  intros [(ic & [<-|[]] & _ & _ & (_ & _ & P))|(ic & [] & _)].
+  specialize (P 0%nat 0%nat). vm_compute in P. discriminate P.
+Qed.
+Example fund_wrong_party_repaired : r_dec (handle_update_req repaired wc_fund w17a) = Drop
+  /\ countersigns repaired wc_fund w17a = None.
+Proof. vm_compute. auto. Qed.
+(* the honest funding update is still accepted automatically, and countersigned *)
+Example fund_honest_repaired : r_dec (handle_update_req repaired wc_fund wfundX) = AutoAccept
+  /\ countersigns repaired wc_fund wfundX = Some (SigOf 1 (enc_state (u_st (req_upd wfundX)))).
+Proof. vm_compute. auto. Qed.
+
+(* row 17b: the settlement of sub-channel X also re-labels the funds locked for channel Y *)
+Definition wS17b : state := wst 2 [[60; 40]%Z] [mkSA wX [10%Z] []; mkSA wY [7%Z] []].
+Definition wc_settle : chanctx := mkCtx (wmach Acting wS17b) [] [mkIc wX [[4; 6]%Z] true] false false false.
+Definition w17b : req := RUpdate (wupd (wst 3 [[64; 46]%Z] [mkSA wZ [7%Z] []]) 1).
+Lemma C07_other_suballoc_refuted : exists c r sg ct,
+  honest_ctx c /\ req_decodable (ps (cx_mach c)) r /\ current (cx_mach c) = Some ct /\
+  countersigns original c r = Some sg /\
+  ~ safe_change c (tx_st ct) r (r_dec (handle_update_req original c r)).
+Proof.
+  exists wc_settle, w17b, (SigOf 1 (enc_state (u_st (req_upd w17b)))), (wfull wS17b).
+  split. { apply honest_wc; try reflexivity; intros ic [<-|[]]; reflexivity. }
+  split; [split; [apply dec_w; reflexivity|exact I]|]. split; [reflexivity|]. split; [vm_compute; reflexivity|].
+  assert (D : r_dec (handle_update_req original wc_settle w17b) = AutoAccept) by (vm_compute; reflexivity).
+  rewrite D. unfold safe_change. cbn [w17b req_upd cx_fund cx_settle wc_settle].
+  intros [(ic & [] & _)|(ic & [<-|[]] & (pre & x & post & L & Ix & _ & Ln) & _)].
+  unfold locked_of in L, Ln. cbn in L, Ln.
+  destruct pre as [|a [|b pre]]; cbn in L, Ln.
+  - injection L as <- <-. discriminate Ln.
+  - injection L as <- <- <-. cbn in Ix. discriminate Ix.
+  - apply (f_equal (@length suballoc)) in L. cbn in L. rewrite app_length in L. cbn in L. lia.
+Qed.
+Example other_suballoc_repaired : r_dec (handle_update_req repaired wc_settle w17b) = Drop.
+Proof. vm_compute. reflexivity. Qed.
+Definition wsettleX : req := RUpdate (wupd (wst 3 [[64; 46]%Z] [mkSA wY [7%Z] []]) 1).
+Example settle_honest_repaired : r_dec (handle_update_req repaired wc_settle wsettleX) = AutoAccept
+  /\ countersigns repaired wc_settle wsettleX = Some (SigOf 1 (enc_state (u_st (req_upd wsettleX)))).
+Proof. vm_compute. auto. Qed.
+
+(* virtual channel funding: "sufficient funds" was all the original validation asked of the balances *)
+Definition wvf (b : list (list Z)) : req :=
+  RVFund (wupd (wst 1 b [mkSA wV [10%Z] [0; 1]]) 1) (wsigned [7; 8] true (wvst [[4; 6]%Z] false) [7; 8]) [0; 1].
+Definition wc_vm : chanctx := mkCtx (wmach Acting wS0) [] [] true false false.
+Lemma C07_vfund_wrong_party_refuted : exists c r sg ct,
+  honest_ctx c /\ req_decodable (ps (cx_mach c)) r /\ current (cx_mach c) = Some ct /\
+  countersigns original c r = Some sg /\
+  ~ safe_change c (tx_st ct) r (r_dec (handle_update_req original c r)).
+Proof.
+  exists wc_vm, (wvf [[50; 40]%Z]), (SigOf 1 (enc_state (u_st (req_upd (wvf [[50; 40]%Z]))))), (wfull wS0).
+  split. { apply honest_wc; try reflexivity; intros ic []. }
+  split; [split; [apply dec_w; reflexivity|reflexivity]|]. split; [reflexivity|]. split; [vm_compute; reflexivity|].
+  unfold safe_change. cbn [wvf req_upd].
+  intros (virt & T & _ & _ & (_ & _ & P)). vm_compute in T. injection T as <-.
+  specialize (P 0%nat 0%nat). vm_compute in P. discriminate P.
+Qed.
+Example vfund_repaired : r_dec (handle_update_req repaired wc_vm (wvf [[50; 40]%Z])) = Reject
+  /\ r_dec (handle_update_req repaired wc_vm (wvf [[56; 34]%Z])) = AutoAccept
+  /\ countersigns repaired wc_vm (wvf [[56; 34]%Z]) = Some (SigOf 1 (enc_state (u_st (req_upd (wvf [[56; 34]%Z]))))).
+Proof. vm_compute. auto. Qed.
+
+(* an ordinary update: the user is asked, and when he accepts the state is countersigned *)
+Definition wpay : req := RUpdate (wupd (wst 1 [[70; 30]%Z] []) 1).
+Example ordinary_update : r_dec (handle_update_req repaired wc0 wpay) = AskUser
+  /\ countersigns repaired wc0 wpay = Some (SigOf 1 (enc_state (u_st (req_upd wpay))))
+  /\ honest_ctx wc0 /\ cur_valid wc0 /\ req_decodable (ps (cx_mach wc0)) wpay.
+Proof.
+  split; [vm_compute; reflexivity|]. split; [vm_compute; reflexivity|].
+  split; [apply honest_wc; try reflexivity; intros ic []|].
+  split; [intros ct H; injection H as <-; reflexivity|]. split; [apply dec_w; reflexivity|exact I].
+Qed.
+(* wrong actor, signature over another state, edited sub-allocation: dropped *)
+Example ordinary_bad : r_dec (handle_update_req repaired wc0 (RUpdate (wupd (wst 1 [[70; 30]%Z] []) 0))) = Drop
+  /\ r_dec (handle_update_req repaired wc0 (RUpdate (mkUpd (wst 1 [[70; 30]%Z] []) 1 (SigOf 2 (enc_state wS0))))) = Drop
+  /\ r_dec (handle_update_req repaired wc0 (RUpdate (wupd (wst 1 [[60; 30]%Z] [mkSA wX [10%Z] []]) 1))) = Drop.
+Proof. vm_compute. auto. Qed.
